@@ -3,7 +3,7 @@ Float fingerprints only *select* candidates and supply replayable points for vio
 import math
 import time
 
-from .sx2smt import emb, RZ
+from .sx2smt import emb, RZ, QZ
 
 
 def close(a, b, tol=1e-9):
@@ -46,6 +46,12 @@ class Checker:
     def neq(self, a, b, timeout_ms=None):
         """'unsat' iff a == b for all values (under hyps)"""
         z3 = self.z3
+        if isinstance(a, QZ) or isinstance(b, QZ):
+            # rational functions: compare by cross-multiplication (denominators are nonzero under the hypotheses)
+            a, b = QZ.lift(a), QZ.lift(b)
+            na = a.n if b.d is None else a.n * b.d
+            nb = b.n if a.d is None else b.n * a.d
+            a, b = na, nb
         a, b = emb(a), emb(b)
         t0 = time.time()
         if t0 - self.t_start > self.budget_s:
